@@ -22,8 +22,10 @@ import (
 	"go/parser"
 	"go/token"
 	"go/types"
+	"hash/fnv"
 	"os"
 	"path/filepath"
+	"regexp"
 	"sort"
 	"strings"
 
@@ -35,15 +37,60 @@ import (
 //go:embed known_funcs.txt
 var knownFuncsRaw string
 
+// knownFuncs: declaration key -> shape hash of the baseline body ("" for closure variables).
+var knownShape = map[string]string{}
+
 var knownFuncs = func() map[string]bool {
 	m := map[string]bool{}
 	for _, l := range strings.Split(knownFuncsRaw, "\n") {
 		if l = strings.TrimSpace(l); l != "" {
-			m[l] = true
+			parts := strings.SplitN(l, "\t", 2)
+			m[parts[0]] = true
+			if len(parts) == 2 {
+				knownShape[parts[0]] = parts[1]
+			}
 		}
 	}
 	return m
 }()
+
+// funcShape is a digest of a function's structure that ignores the names of identifiers it declares or uses
+// unqualified (locals, parameters, package-level functions) but keeps operators, literals, selected names and the
+// statement structure.  A function that was only renamed (or whose locals were renamed) keeps its shape.
+func funcShape(d *ast.FuncDecl) string {
+	h := fnv.New64a()
+	w := func(s string) { h.Write([]byte(s)); h.Write([]byte{0}) }
+	ast.Inspect(d.Type, func(n ast.Node) bool {
+		if n != nil {
+			w(fmt.Sprintf("%T", n))
+		}
+		return true
+	})
+	ast.Inspect(d.Body, func(n ast.Node) bool {
+		if n == nil {
+			return true
+		}
+		w(fmt.Sprintf("%T", n))
+		switch t := n.(type) {
+		case *ast.BinaryExpr:
+			w(t.Op.String())
+		case *ast.UnaryExpr:
+			w(t.Op.String())
+		case *ast.AssignStmt:
+			w(t.Tok.String())
+		case *ast.IncDecStmt:
+			w(t.Tok.String())
+		case *ast.BranchStmt:
+			w(t.Tok.String())
+		case *ast.BasicLit:
+			w(t.Value)
+		case *ast.SelectorExpr:
+			w(t.Sel.Name)
+		}
+		return true
+	})
+	return fmt.Sprintf("%016x", h.Sum64())
+}
 
 // declKey names a function declaration: "<module-relative dir>:<Recv>.<Name>" or "<dir>:<Name>".
 func declKey(relDir string, d *ast.FuncDecl) string {
@@ -72,6 +119,14 @@ func declKey(relDir string, d *ast.FuncDecl) string {
 }
 
 // scanFuncDecls parses (syntax only) every non-test .go file of the module and returns the declaration keys.
+// helperDirs (filled by scanFuncDecls): module-relative directories whose sources mention an expandable helper.
+var helperDirs = map[string]bool{}
+
+var helperMention = regexp.MustCompile(`\bfor( \w+ :?=)? range [\w.()]+ \{|\bstrings\.Builder\b|\bslices\.(Contains|Index|ContainsFunc|IndexFunc)\(|\bstrings\.Cut(Prefix|Suffix)?\(|\b(min|max)\(`)
+
+// declShapes (filled by scanFuncDecls): declaration key -> shape of the current body.
+var declShapes = map[string]string{}
+
 func scanFuncDecls(root string) (map[string]bool, error) {
 	out := map[string]bool{}
 	fset := token.NewFileSet()
@@ -94,9 +149,18 @@ func scanFuncDecls(root string) (map[string]bool, error) {
 			return nil // the typed load reports real errors
 		}
 		rel, _ := filepath.Rel(root, filepath.Dir(path))
+		if b, err := os.ReadFile(path); err == nil && helperMention.Match(b) {
+			helperDirs[rel] = true
+		}
 		for _, d := range f.Decls {
+			if gd, ok := d.(*ast.GenDecl); ok && gd.Tok == token.TYPE {
+				for _, sp := range gd.Specs {
+					out[rel+":type "+sp.(*ast.TypeSpec).Name.Name] = true
+				}
+			}
 			if fd, ok := d.(*ast.FuncDecl); ok && fd.Body != nil {
 				out[declKey(rel, fd)] = true
+				declShapes[declKey(rel, fd)] = funcShape(fd)
 				for _, cv := range closureVars(fd) {
 					out[declKey(rel, fd)+"$"+cv.name] = true
 				}
@@ -105,6 +169,69 @@ func scanFuncDecls(root string) (map[string]bool, error) {
 		return nil
 	})
 	return out, err
+}
+
+// undoRenames restores the baseline name of renamed functions/methods throughout the package.
+func undoRenames(pk *packages.Package, relDir string, res *normResult) bool {
+	if len(res.renames) == 0 {
+		return false
+	}
+	objs := map[types.Object]string{}
+	for _, f := range pk.Syntax {
+		for _, d := range f.Decls {
+			fd, ok := d.(*ast.FuncDecl)
+			if !ok || fd.Body == nil {
+				continue
+			}
+			key := declKey(relDir, fd)
+			if old, ok := res.renames[key]; ok {
+				if obj := pk.TypesInfo.Defs[fd.Name]; obj != nil {
+					objs[obj] = old
+					res.Inlined = appendUniq(res.Inlined, key+" renamed back to "+old)
+				}
+				delete(res.renames, key)
+			}
+		}
+	}
+	if len(objs) == 0 {
+		return false
+	}
+	changed := false
+	for _, f := range pk.Syntax {
+		name := pk.Fset.File(f.Pos()).Name()
+		content := fileContent(name, res)
+		tf := pk.Fset.File(f.Pos())
+		type ed struct {
+			from, to int
+			text     string
+		}
+		var eds []ed
+		ast.Inspect(f, func(n ast.Node) bool {
+			id, ok := n.(*ast.Ident)
+			if !ok {
+				return true
+			}
+			obj := pk.TypesInfo.Uses[id]
+			if obj == nil {
+				obj = pk.TypesInfo.Defs[id]
+			}
+			if old, ok := objs[obj]; ok && obj != nil {
+				eds = append(eds, ed{tf.Offset(id.Pos()), tf.Offset(id.End()), old})
+			}
+			return true
+		})
+		if len(eds) == 0 {
+			continue
+		}
+		sort.Slice(eds, func(i, j int) bool { return eds[i].from > eds[j].from })
+		out := append([]byte{}, content...)
+		for _, e := range eds {
+			out = append(append(append([]byte{}, out[:e.from]...), e.text...), out[e.to:]...)
+		}
+		res.Overlay[name] = out
+		changed = true
+	}
+	return changed
 }
 
 // closureVar is a local variable defined as a function literal (`name := func…` or `var name = func…`).
@@ -195,8 +322,8 @@ func inlineLocalClosures(pk *packages.Package, relDir string, newOnes map[string
 				if bad == "" && len(calls) == 0 {
 					bad = "never called"
 				}
-				if bad == "" && len(calls) > 6 {
-					bad = "more than 6 call sites"
+				if bad == "" && len(calls) > 16 {
+					bad = "more than 16 call sites"
 				}
 				// free names of the literal must mean the same thing at every call site
 				if bad == "" {
@@ -284,7 +411,488 @@ func inlineLocalClosures(pk *packages.Package, relDir string, newOnes map[string
 	return changed
 }
 
+// ---------------------------------------------------------------------------
+// Standard-library helper expansion.  The baseline code uses none of slices.Contains/Index/ContainsFunc/IndexFunc,
+// strings.Cut/CutPrefix/CutSuffix or the min/max builtins; a change that introduces one replaces a hand-written
+// loop or Index-and-slice sequence the rules know.  Each such call is rewritten to the equivalent explicit code
+// (as an immediately-invoked literal, which de-literalisation then splices in), so the rules see the loop again.
+
+func simpleOperand(e ast.Expr) bool {
+	switch t := e.(type) {
+	case *ast.Ident, *ast.BasicLit:
+		return true
+	case *ast.SelectorExpr:
+		return simpleOperand(t.X)
+	case *ast.ParenExpr:
+		return simpleOperand(t.X)
+	case *ast.StarExpr:
+		return simpleOperand(t.X)
+	case *ast.UnaryExpr:
+		return t.Op != token.ARROW && t.Op != token.AND && simpleOperand(t.X)
+	case *ast.BinaryExpr:
+		return simpleOperand(t.X) && simpleOperand(t.Y)
+	case *ast.IndexExpr:
+		return simpleOperand(t.X) && simpleOperand(t.Index)
+	case *ast.CallExpr:
+		if id, ok := t.Fun.(*ast.Ident); ok && len(t.Args) == 1 {
+			switch id.Name {
+			case "len", "cap", "int", "int8", "int16", "int32", "int64", "uint", "uint8", "uint16", "uint32", "uint64", "uintptr", "byte", "rune", "float32", "float64", "string":
+				// len/cap and conversions to predeclared types have no side effects
+				return simpleOperand(t.Args[0])
+			}
+		}
+	}
+	return false
+}
+
+func expandStdHelpers(pk *packages.Package, res *normResult, touched map[*ast.File]bool) bool {
+	changed := false
+	for _, f := range pk.Syntax {
+		if touched[f] {
+			continue
+		}
+		name := pk.Fset.File(f.Pos()).Name()
+		content := fileContent(name, res)
+		tf := pk.Fset.File(f.Pos())
+		src := func(e ast.Expr) string { return string(content[tf.Offset(e.Pos()):tf.Offset(e.End())]) }
+		type ed struct {
+			from, to int
+			text     string
+		}
+		var eds []ed
+		n := 0
+		var done []string
+		ast.Inspect(f, func(nd ast.Node) bool {
+			c, ok := nd.(*ast.CallExpr)
+			if !ok || c.Ellipsis.IsValid() {
+				return true
+			}
+			full := ""
+			switch fun := c.Fun.(type) {
+			case *ast.SelectorExpr:
+				if fn, ok := pk.TypesInfo.Uses[fun.Sel].(*types.Func); ok && fn.Pkg() != nil {
+					full = fn.Pkg().Path() + "." + fn.Name()
+				}
+			case *ast.Ident:
+				if b, ok := pk.TypesInfo.Uses[fun].(*types.Builtin); ok {
+					full = "builtin." + b.Name()
+				}
+			}
+			// an expandable call nested in the arguments is handled in a later round
+			for _, e := range eds {
+				if tf.Offset(c.Pos()) >= e.from && tf.Offset(c.End()) <= e.to {
+					return true
+				}
+			}
+			n++
+			ev := fmt.Sprintf("vtE%d", len(eds)+1)
+			text := ""
+			switch full {
+			case "slices.Contains":
+				if len(c.Args) == 2 && simpleOperand(c.Args[1]) {
+					text = fmt.Sprintf("func() bool { for _, %s := range %s { if %s == %s { return true } }; return false }()", ev, src(c.Args[0]), ev, src(c.Args[1]))
+				}
+			case "slices.Index":
+				if len(c.Args) == 2 && simpleOperand(c.Args[1]) {
+					text = fmt.Sprintf("func() int { for %sI, %s := range %s { if %s == %s { return %sI } }; return -1 }()", ev, ev, src(c.Args[0]), ev, src(c.Args[1]), ev)
+				}
+			case "slices.ContainsFunc":
+				if len(c.Args) == 2 && funcOperand(c.Args[1]) {
+					text = fmt.Sprintf("func() bool { for _, %s := range %s { if %s(%s) { return true } }; return false }()", ev, src(c.Args[0]), parenLit(c.Args[1], src), ev)
+				}
+			case "slices.IndexFunc":
+				if len(c.Args) == 2 && funcOperand(c.Args[1]) {
+					text = fmt.Sprintf("func() int { for %sI, %s := range %s { if %s(%s) { return %sI } }; return -1 }()", ev, ev, src(c.Args[0]), parenLit(c.Args[1], src), ev, ev)
+				}
+			case "strings.Cut":
+				if len(c.Args) == 2 && simpleOperand(c.Args[0]) && simpleOperand(c.Args[1]) {
+					a, b := src(c.Args[0]), src(c.Args[1])
+					text = fmt.Sprintf("func() (string, string, bool) { if %s := strings.Index(%s, %s); %s >= 0 { return %s[:%s], %s[%s+len(%s):], true }; return %s, \"\", false }()", ev, a, b, ev, a, ev, a, ev, b, a)
+				}
+			case "strings.CutPrefix":
+				if len(c.Args) == 2 && simpleOperand(c.Args[0]) && simpleOperand(c.Args[1]) {
+					a, b := src(c.Args[0]), src(c.Args[1])
+					text = fmt.Sprintf("func() (string, bool) { if strings.HasPrefix(%s, %s) { return %s[len(%s):], true }; return %s, false }()", a, b, a, b, a)
+				}
+			case "strings.CutSuffix":
+				if len(c.Args) == 2 && simpleOperand(c.Args[0]) && simpleOperand(c.Args[1]) {
+					a, b := src(c.Args[0]), src(c.Args[1])
+					text = fmt.Sprintf("func() (string, bool) { if strings.HasSuffix(%s, %s) { return %s[:len(%s)-len(%s)], true }; return %s, false }()", a, b, a, a, b, a)
+				}
+			case "builtin.min", "builtin.max":
+				if len(c.Args) == 2 && simpleOperand(c.Args[0]) && simpleOperand(c.Args[1]) {
+					if bt, ok := pk.TypesInfo.TypeOf(c).(*types.Basic); ok && bt.Info()&types.IsInteger != 0 && bt.Info()&types.IsUntyped == 0 {
+						op := "<"
+						if full == "builtin.max" {
+							op = ">"
+						}
+						a, b := src(c.Args[0]), src(c.Args[1])
+						text = fmt.Sprintf("func() %s { if %s %s %s { return %s }; return %s }()", bt.Name(), b, op, a, b, a)
+					}
+				}
+			}
+			if text != "" {
+				eds = append(eds, ed{tf.Offset(c.Pos()), tf.Offset(c.End()), text})
+				done = append(done, full)
+				return false
+			}
+			return true
+		})
+		if len(eds) == 0 {
+			continue
+		}
+		sort.Slice(eds, func(i, j int) bool { return eds[i].from > eds[j].from })
+		out := append([]byte{}, content...)
+		for _, e := range eds {
+			out = append(append(append([]byte{}, out[:e.from]...), e.text...), out[e.to:]...)
+		}
+		old := iifeTexts(name, content)
+		out2, nlit := deliteralize(name, out, old)
+		out2 = ensureImport(name, out2, "strings")
+		out2 = dropUnusedImports(name, out2)
+		if _, err := parser.ParseFile(token.NewFileSet(), name, out2, parser.SkipObjectResolution); err != nil {
+			res.Kept = appendUniq(res.Kept, name+": helper expansion does not parse")
+			continue
+		}
+		res.Overlay[name] = out2
+		touched[f] = true
+		changed = true
+		sort.Strings(done)
+		rel, _ := filepath.Rel(repoDir, name)
+		res.Inlined = append(res.Inlined, sprintf("%s: expanded %s (%d spliced in place)", rel, strings.Join(done, ","), nlit))
+	}
+	return changed
+}
+
+// assignsTo: the statement list assigns to (or increments, or takes the address of) the named variable.
+func assignsTo(body ast.Node, info *types.Info, obj types.Object) bool {
+	found := false
+	ast.Inspect(body, func(n ast.Node) bool {
+		switch t := n.(type) {
+		case *ast.AssignStmt:
+			for _, l := range t.Lhs {
+				if id, ok := l.(*ast.Ident); ok && info.Uses[id] == obj {
+					found = true
+				}
+			}
+		case *ast.IncDecStmt:
+			if id, ok := t.X.(*ast.Ident); ok && info.Uses[id] == obj {
+				found = true
+			}
+		case *ast.UnaryExpr:
+			if id, ok := t.X.(*ast.Ident); ok && t.Op == token.AND && info.Uses[id] == obj {
+				found = true
+			}
+		}
+		return !found
+	})
+	return found
+}
+
+// expandRangeInt rewrites `for i := range n` over an integer (Go 1.22; the baseline has none) into the classic
+// three-clause loop the rules' loop recognisers know.  Only when n is a plain operand that the body does not modify
+// and the body does not assign the loop variable (then the two forms are the same loop).
+func expandRangeInt(pk *packages.Package, res *normResult, touched map[*ast.File]bool) bool {
+	changed := false
+	for _, f := range pk.Syntax {
+		if touched[f] {
+			continue
+		}
+		name := pk.Fset.File(f.Pos()).Name()
+		content := fileContent(name, res)
+		tf := pk.Fset.File(f.Pos())
+		type ed struct {
+			from, to int
+			text     string
+		}
+		var eds []ed
+		ast.Inspect(f, func(nd ast.Node) bool {
+			rs, ok := nd.(*ast.RangeStmt)
+			if !ok || rs.Value != nil {
+				return true
+			}
+			bt, ok := pk.TypesInfo.TypeOf(rs.X).Underlying().(*types.Basic)
+			if !ok || bt.Info()&types.IsInteger == 0 || !simpleOperand(rs.X) {
+				return true
+			}
+			tname := "int"
+			if bt.Info()&types.IsUntyped == 0 {
+				if _, isBasic := pk.TypesInfo.TypeOf(rs.X).(*types.Basic); !isBasic {
+					return true // named integer type: leave
+				}
+				tname = bt.Name()
+			}
+			// n must not change in the body
+			bad := false
+			ast.Inspect(rs.X, func(m ast.Node) bool {
+				if id, ok := m.(*ast.Ident); ok {
+					if o := pk.TypesInfo.Uses[id]; o != nil && assignsTo(rs.Body, pk.TypesInfo, o) {
+						bad = true
+					}
+				}
+				return true
+			})
+			if bad {
+				return true
+			}
+			nsrc := string(content[tf.Offset(rs.X.Pos()):tf.Offset(rs.X.End())])
+			iv := fmt.Sprintf("vtI%d", len(eds)+1)
+			hdr := ""
+			if rs.Key != nil {
+				id, ok := rs.Key.(*ast.Ident)
+				if !ok {
+					return true
+				}
+				var o types.Object
+				if rs.Tok == token.DEFINE {
+					o = pk.TypesInfo.Defs[id]
+				} else {
+					o = pk.TypesInfo.Uses[id]
+				}
+				if id.Name != "_" && o != nil && assignsTo(rs.Body, pk.TypesInfo, o) {
+					return true
+				}
+				if id.Name != "_" {
+					iv = id.Name
+				}
+				if rs.Tok == token.ASSIGN && id.Name != "_" {
+					hdr = fmt.Sprintf("for %s = 0; %s < %s; %s++ ", iv, iv, nsrc, iv)
+				}
+			}
+			if hdr == "" {
+				hdr = fmt.Sprintf("for %s := %s(0); %s < %s; %s++ ", iv, tname, iv, nsrc, iv)
+			}
+			eds = append(eds, ed{tf.Offset(rs.For), tf.Offset(rs.Body.Lbrace), hdr})
+			return true
+		})
+		if len(eds) == 0 {
+			continue
+		}
+		sort.Slice(eds, func(i, j int) bool { return eds[i].from > eds[j].from })
+		out := append([]byte{}, content...)
+		for _, e := range eds {
+			out = append(append(append([]byte{}, out[:e.from]...), e.text...), out[e.to:]...)
+		}
+		if _, err := parser.ParseFile(token.NewFileSet(), name, out, parser.SkipObjectResolution); err != nil {
+			continue
+		}
+		res.Overlay[name] = out
+		touched[f] = true
+		changed = true
+		rel, _ := filepath.Rel(repoDir, name)
+		res.Inlined = append(res.Inlined, sprintf("%s: %d range-over-integer loop(s) written as three-clause loops", rel, len(eds)))
+	}
+	return changed
+}
+
+// expandBuilders rewrites a local `var b strings.Builder` (the baseline has none) that is only written with
+// WriteString/WriteByte/WriteRune/Write/fmt.Fprintf(&b, …) and read with String()/Len() into a plain string built
+// with +=, the form the value-flow rules follow.
+func expandBuilders(pk *packages.Package, res *normResult, touched map[*ast.File]bool) bool {
+	changed := false
+	isBuilder := func(t types.Type) bool {
+		n, ok := t.(*types.Named)
+		return ok && n.Obj().Pkg() != nil && n.Obj().Pkg().Path() == "strings" && n.Obj().Name() == "Builder"
+	}
+	for _, f := range pk.Syntax {
+		if touched[f] {
+			continue
+		}
+		name := pk.Fset.File(f.Pos()).Name()
+		content := fileContent(name, res)
+		tf := pk.Fset.File(f.Pos())
+		src := func(n ast.Node) string { return string(content[tf.Offset(n.Pos()):tf.Offset(n.End())]) }
+		type ed struct {
+			from, to int
+			text     string
+		}
+		var all []ed
+		nvars := 0
+		for _, d := range f.Decls {
+			fd, ok := d.(*ast.FuncDecl)
+			if !ok || fd.Body == nil {
+				continue
+			}
+			// candidate variables: `var b strings.Builder`
+			ast.Inspect(fd.Body, func(nd ast.Node) bool {
+				ds, ok := nd.(*ast.DeclStmt)
+				if !ok {
+					return true
+				}
+				gd, ok := ds.Decl.(*ast.GenDecl)
+				if !ok || gd.Tok != token.VAR || len(gd.Specs) != 1 {
+					return true
+				}
+				vs, ok := gd.Specs[0].(*ast.ValueSpec)
+				if !ok || len(vs.Names) != 1 || len(vs.Values) != 0 || vs.Type == nil {
+					return true
+				}
+				obj := pk.TypesInfo.Defs[vs.Names[0]]
+				if obj == nil || !isBuilder(obj.Type()) {
+					return true
+				}
+				var eds []ed
+				okAll := true
+				handled := map[*ast.Ident]bool{}
+				eds = append(eds, ed{tf.Offset(vs.Type.Pos()), tf.Offset(vs.Type.End()), "string"})
+				// statement-level writes
+				ast.Inspect(fd.Body, func(m ast.Node) bool {
+					es, ok := m.(*ast.ExprStmt)
+					if !ok {
+						return true
+					}
+					c, ok := es.X.(*ast.CallExpr)
+					if !ok {
+						return true
+					}
+					if se, ok := c.Fun.(*ast.SelectorExpr); ok {
+						if id, ok := se.X.(*ast.Ident); ok && pk.TypesInfo.Uses[id] == obj && len(c.Args) <= 1 {
+							v := id.Name
+							switch se.Sel.Name {
+							case "WriteString":
+								eds = append(eds, ed{tf.Offset(es.Pos()), tf.Offset(es.End()), v + " += " + src(c.Args[0])})
+							case "WriteByte", "WriteRune", "Write":
+								eds = append(eds, ed{tf.Offset(es.Pos()), tf.Offset(es.End()), v + " += string(" + src(c.Args[0]) + ")"})
+							case "Reset":
+								eds = append(eds, ed{tf.Offset(es.Pos()), tf.Offset(es.End()), v + " = \"\""})
+							case "Grow":
+								eds = append(eds, ed{tf.Offset(es.Pos()), tf.Offset(es.End()), "_ = " + src(c.Args[0])})
+							default:
+								return true
+							}
+							handled[id] = true
+							return false
+						}
+						// fmt.Fprintf(&b, …) / fmt.Fprint(&b, …)
+						if pid, ok := se.X.(*ast.Ident); ok && len(c.Args) >= 1 {
+							if pn, ok := pk.TypesInfo.Uses[pid].(*types.PkgName); ok && pn.Imported().Path() == "fmt" && strings.HasPrefix(se.Sel.Name, "Fprint") {
+								if ue, ok := c.Args[0].(*ast.UnaryExpr); ok && ue.Op == token.AND {
+									if id, ok := ue.X.(*ast.Ident); ok && pk.TypesInfo.Uses[id] == obj && len(c.Args) >= 2 {
+										rest := string(content[tf.Offset(c.Args[1].Pos()):tf.Offset(c.Rparen)])
+										eds = append(eds, ed{tf.Offset(es.Pos()), tf.Offset(es.End()), id.Name + " += fmt.S" + strings.TrimPrefix(se.Sel.Name, "F") + "(" + rest + ")"})
+										handled[id] = true
+										return false
+									}
+								}
+							}
+						}
+					}
+					return true
+				})
+				// reads
+				ast.Inspect(fd.Body, func(m ast.Node) bool {
+					c, ok := m.(*ast.CallExpr)
+					if !ok {
+						return true
+					}
+					if se, ok := c.Fun.(*ast.SelectorExpr); ok && len(c.Args) == 0 {
+						if id, ok := se.X.(*ast.Ident); ok && pk.TypesInfo.Uses[id] == obj && !handled[id] {
+							switch se.Sel.Name {
+							case "String":
+								eds = append(eds, ed{tf.Offset(c.Pos()), tf.Offset(c.End()), id.Name})
+								handled[id] = true
+							case "Len":
+								eds = append(eds, ed{tf.Offset(c.Pos()), tf.Offset(c.End()), "len(" + id.Name + ")"})
+								handled[id] = true
+							}
+						}
+					}
+					return true
+				})
+				// any other use disqualifies the variable
+				ast.Inspect(fd.Body, func(m ast.Node) bool {
+					if id, ok := m.(*ast.Ident); ok && pk.TypesInfo.Uses[id] == obj && !handled[id] {
+						okAll = false
+					}
+					return true
+				})
+				if okAll {
+					all = append(all, eds...)
+					nvars++
+				}
+				return true
+			})
+		}
+		if nvars == 0 {
+			continue
+		}
+		sort.Slice(all, func(i, j int) bool { return all[i].from > all[j].from })
+		// overlapping edits (a String() call inside a rewritten statement): give up on the file
+		overlap := false
+		for i := 1; i < len(all); i++ {
+			if all[i].to > all[i-1].from {
+				overlap = true
+			}
+		}
+		if overlap {
+			continue
+		}
+		out := append([]byte{}, content...)
+		for _, e := range all {
+			out = append(append(append([]byte{}, out[:e.from]...), e.text...), out[e.to:]...)
+		}
+		out = dropUnusedImports(name, out)
+		if _, err := parser.ParseFile(token.NewFileSet(), name, out, parser.SkipObjectResolution); err != nil {
+			continue
+		}
+		res.Overlay[name] = out
+		touched[f] = true
+		changed = true
+		rel, _ := filepath.Rel(repoDir, name)
+		res.Inlined = append(res.Inlined, sprintf("%s: %d strings.Builder variable(s) written as string concatenation", rel, nvars))
+	}
+	return changed
+}
+
+func funcOperand(e ast.Expr) bool {
+	switch e.(type) {
+	case *ast.FuncLit, *ast.Ident:
+		return true
+	}
+	return simpleOperand(e)
+}
+
+func parenLit(e ast.Expr, src func(ast.Expr) string) string {
+	if _, ok := e.(*ast.FuncLit); ok {
+		return src(e) // `func(x T) bool {…}(arg)` is a valid call of a literal
+	}
+	return src(e)
+}
+
+// ensureImport adds an import of a standard package if the file uses it without importing it.
+func ensureImport(name string, src []byte, pkg string) []byte {
+	fset := token.NewFileSet()
+	f, err := parser.ParseFile(fset, name, src, parser.ParseComments)
+	if err != nil {
+		return src
+	}
+	uses := false
+	ast.Inspect(f, func(n ast.Node) bool {
+		if se, ok := n.(*ast.SelectorExpr); ok {
+			if id, ok := se.X.(*ast.Ident); ok && id.Name == pkg {
+				uses = true
+			}
+		}
+		return true
+	})
+	if !uses {
+		return src
+	}
+	for _, im := range f.Imports {
+		if strings.Trim(im.Path.Value, `"`) == pkg {
+			return src
+		}
+	}
+	// insert after the package clause
+	off := fset.File(f.Pos()).Offset(f.Name.End())
+	out := append([]byte{}, src[:off]...)
+	out = append(out, []byte("\n\nimport \""+pkg+"\"\n")...)
+	out = append(out, src[off:]...)
+	return out
+}
+
 type normResult struct {
+	renames map[string]string
 	Overlay map[string][]byte
 	Inlined []string // "caller <- callee"
 	Kept    []string // new helpers that could not be inlined (reason)
@@ -303,7 +911,46 @@ func normalizeRepo(goos, goarch string) (*normResult, error) {
 		}
 	}
 	res := &normResult{}
-	if len(newOnes) == 0 {
+	// renamed functions: a baseline function that is gone and a new one of identical shape in the same directory
+	// (and with the same receiver) are the same function under a new name; the old name is restored
+	renames := map[string]string{} // new key -> old name
+	{
+		missingByShape := map[string][]string{}
+		for k := range knownFuncs {
+			if !decls[k] && knownShape[k] != "" {
+				missingByShape[knownShape[k]] = append(missingByShape[knownShape[k]], k)
+			}
+		}
+		newByShape := map[string][]string{}
+		for k := range newOnes {
+			if sh := declShapes[k]; sh != "" {
+				newByShape[sh] = append(newByShape[sh], k)
+			}
+		}
+		for sh, olds := range missingByShape {
+			news := newByShape[sh]
+			if len(olds) != 1 || len(news) != 1 {
+				continue
+			}
+			o, n := olds[0], news[0]
+			od, on := o[:strings.Index(o, ":")], o[strings.Index(o, ":")+1:]
+			nd, nn := n[:strings.Index(n, ":")], n[strings.Index(n, ":")+1:]
+			orecv, nrecv := "", ""
+			if i := strings.Index(on, "."); i >= 0 {
+				orecv, on = on[:i], on[i+1:]
+			}
+			if i := strings.Index(nn, "."); i >= 0 {
+				nrecv, nn = nn[:i], nn[i+1:]
+			}
+			if od != nd || orecv != nrecv || ast.IsExported(on) != ast.IsExported(nn) {
+				continue
+			}
+			renames[n] = on
+			delete(newOnes, n)
+		}
+	}
+	res.renames = renames
+	if len(newOnes) == 0 && len(helperDirs) == 0 && len(renames) == 0 {
 		return res, nil
 	}
 	env := append(os.Environ(), "GOFLAGS=-mod=mod", "GOPROXY=off", "GOSUMDB=off", "GOTOOLCHAIN=local", "GOWORK=off", "CGO_ENABLED=0")
@@ -317,6 +964,12 @@ func normalizeRepo(goos, goarch string) (*normResult, error) {
 	// only the packages that declare a new function are (re)loaded; inlining is package-local
 	dirs := map[string]bool{}
 	for k := range newOnes {
+		dirs[k[:strings.Index(k, ":")]] = true
+	}
+	for d := range helperDirs {
+		dirs[d] = true
+	}
+	for k := range renames {
 		dirs[k[:strings.Index(k, ":")]] = true
 	}
 	var patterns []string
@@ -412,7 +1065,23 @@ func normalizePackage(pk *packages.Package, newOnes map[string]bool, res *normRe
 		}
 	}
 	touched := map[*ast.File]bool{}
-	changed := inlineLocalClosures(pk, relDir, newOnes, res, touched)
+	if undoRenames(pk, relDir, res) {
+		// every file of the package may have been edited: nothing else this round
+		return true
+	}
+	changed := expandStdHelpers(pk, res, touched)
+	if expandRangeInt(pk, res, touched) {
+		changed = true
+	}
+	if expandBuilders(pk, res, touched) {
+		changed = true
+	}
+	if sroaPackage(pk, relDir, knownFuncs, res, touched) {
+		changed = true
+	}
+	if inlineLocalClosures(pk, relDir, newOnes, res, touched) {
+		changed = true
+	}
 	if len(cands) == 0 {
 		return changed
 	}
